@@ -21,10 +21,16 @@ EXPLANATION = (
     "from its syntax tree and checked against every entry of the shipped JSON table (keys present, "
     "equal lengths >= 1, exponents > 0 and finite, coefficients finite, element symbols known to the "
     "num2sym table so that both look-up routes reach them); the loader hands the lists out only "
-    "through np.asarray(..., dtype=float).  Values are only compared, never computed with.  The "
-    "claim that the s/p formulas are the potentials of the documented densities is an analytic "
-    "identity and is NOT decided.")
-RULE = "one instance per (element entry x obligation) of atomic_gauss_params.json, plus loader-side obligations"
+    "through np.asarray(..., dtype=float).  Analytic clause (E8 with an erf generator, nothing "
+    "executed): the formula each Gaussian-potential routine returns above the small-r threshold and "
+    "the value it returns below it are extracted from the source (masked ufuncs, masked stores, "
+    "np.where, private helpers) and, for the normalised and unnormalised s and p variants, (P1) "
+    "(r V)'' == -4 pi r rho for the documented density rho as algebraic normal forms, (P2) the small-r "
+    "value equals the r -> 0 limit of the formula, (P3) r V tends to the total charge.  Known "
+    "finding: the p-type formula is not the potential of its documented density (pinned by a test).  "
+    "NOT decided: how far an r-dependent small-r expansion may be used (numerical), superposition.")
+RULE = ("one instance per (element entry x obligation) of atomic_gauss_params.json, plus loader-side obligations; "
+        "2 routines x 2 variants x 3 analytic identities")
 
 
 def run(tier="quick", root="/repo", evidence_dir=None, quiet=False):
@@ -160,6 +166,9 @@ def run(tier="quick", root="/repo", evidence_dir=None, quiet=False):
             rep.violation("entry-finite-coefficients", f"data/{fname}", f"{sym}:coefficients",
                           f"entry {sym!r} has non-numeric / non-finite coefficient(s)", where)
     rep.floor("shipped parameter sets", len(table), 5)
+    # analytic clause: the s/p routines return the potential of the density they document (E8 + erf)
+    from gridlint import identities
+    rep.attempt(identities.rule_coulomb, rep, repo)
     rep.extra.update({"elements": sorted(table), "keys_read_by_loader": sorted(reads),
                       "source_digest": repo.digest(["coulomb", "utils"])})
     return rep.finish(evidence_dir=evidence_dir, quiet=quiet)
